@@ -252,3 +252,72 @@ def stoch_diff(m, i):
             if dd:
                 d.append(f"descriptor {n}: " + ",".join(dd))
     return d
+
+
+# --------------------------------------------------------------------------------------------
+# molecule layer (Model/Mol.v)
+def mol_line(text):
+    return "\t".join(["mol", fw.hx(text), ",".join(fw.hx(v) for v in valid_bracket_atoms(text))])
+
+
+def parse_model_mol(line):
+    if line.startswith("ERR "):
+        return ("ERR", line[4:])
+    if not line.startswith("OK "):
+        return ("BAD", line)
+    d = dict(p.split("=", 1) for p in line[3:].split(" "))
+    els = []
+    for e in (d["elems"].split(",") if d["elems"] else []):
+        f = e.split(":")
+        if f[0] == "T":
+            els.append(("tok", fw.unhx(f[1])))
+        else:
+            els.append(("stoch", fw.unhx(f[1]), fw.unhx(f[2]), [fw.unhx(x) for x in f[3].split("+") if x], [fw.unhx(x) for x in f[4].split("+") if x], int(f[5]),
+                        None if f[6] == "none" else f[6]))
+    mix = None if d["mix"] == "none" else tuple(None if x == "-" else x for x in d["mix"].split(";"))
+    return {"elems": els, "mix": mix, "generable": d["gen"] == "T"}
+
+
+def impl_mol(text):
+    import traceback
+
+    import gbigsmiles
+    from gbigsmiles.stochastic import Stochastic
+
+    try:
+        with fw.time_limit(10):
+            m = gbigsmiles.Molecule(text)
+    except fw.Timeout:
+        return ("TIMEOUT", "timeout")
+    except Exception as e:  # noqa
+        frames = [(os.path.basename(f.filename), f.name) for f in traceback.extract_tb(e.__traceback__)]
+        if any(fn == "distribution.py" and name == "__init__" for fn, name in frames) and not ("does not start with" in str(e)):
+            return ("DISTPARAM", fw.exc_class(e))
+        return ("ERR", fw.exc_class(e))
+    els = []
+    for e in m._elements:
+        if isinstance(e, Stochastic):
+            els.append(("stoch", e.left_terminal.generate_string(True), e.right_terminal.generate_string(True), [t.generate_string(True) for t in e.repeat_tokens],
+                        [t.generate_string(True) for t in e.end_tokens], len(e.bond_descriptors),
+                        None if e.distribution is None else FAMILY.get(type(e.distribution).__name__, type(e.distribution).__name__)))
+        else:
+            els.append(("tok", e.generate_string(True)))
+    mix = None if m.mixture is None else (m.mixture.absolute_mass, m.mixture.relative_mass)
+    return {"elems": els, "mix": mix, "generable": bool(m.generable)}
+
+
+def mol_diff(m, i):
+    if isinstance(i, tuple) and i[0] == "DISTPARAM":
+        return []
+    if isinstance(m, tuple) or isinstance(i, tuple):
+        if isinstance(m, tuple) and isinstance(i, tuple):
+            return [] if (m[0] == i[0] == "ERR" and m[1] == i[1]) else [f"error class (model {m[1]}, implementation {i[1]})"]
+        return [f"error vs object (model {'error ' + m[1] if isinstance(m, tuple) else 'object'}, implementation {'error ' + i[1] if isinstance(i, tuple) else 'object'})"]
+    d = [k for k in ("elems", "generable") if m[k] != i[k]]
+    if (m["mix"] is None) != (i["mix"] is None):
+        d.append("mixture")
+    elif m["mix"] is not None:
+        for a, b in zip(m["mix"], i["mix"]):
+            if (a is None) != (b is None) or (a is not None and not num_close(a, b)):
+                d.append(f"mixture value {a} vs {b}")
+    return d
